@@ -38,5 +38,6 @@ let () =
   let mode = Sys.argv.(1) in
   let f = match mode with
     | "diff" -> mode_diff
+    | "adapt" -> M_adapt.run_line
     | _ -> failwith ("unknown mode " ^ mode) in
   iter_lines stdin (fun line -> if line <> "" then f line)
